@@ -13,6 +13,21 @@ COMMON_NOTE = ('Bounded: holds for all values inside the stated bounds under the
                '(translation-validated against the native build on every run), z3 5.1.')
 
 CLAIMS = {
+    'C18': {
+        'text': 'Symbolic execution of the MIR of validate_and_get_doscmint_speed (proof_is_tip910, check_dosc_total_output, '
+                'Transaction::total_outputs) on a symbolic DoscMint transaction with 1-2 outputs from an arbitrary state: accepted '
+                '=> the data decodes and melpow verifies the proof, under the legacy or TIP-910 hash, for hash_keyed(hash(header at '
+                'the coin height), stdcode(first input)) at the stated difficulty; on mainnet the coin is >= 100 blocks old; the ERG '
+                'created is <= dosc_to_erg(height, calculate_reward(speed, previous header speed, difficulty, variant)); the speed '
+                'returned is compute_doscmint_speed(...). Three formula kernels decide that those functions equal the stated '
+                'formulas for all arguments (difficulty <= 100), and the closures of the speed fold are filter(kind == DoscMint), '
+                'start at the previous speed, and take maxima. melpow verification itself is an uninterpreted predicate.',
+        'design_ref': 'DESIGN.md §8 C18',
+        'note': COMMON_NOTE + ' Replay generates real MelPoW proofs (difficulty 6, both hashes) and presents honest, excessive, '
+                'corrupted, mis-seeded and too-young mints to the real apply_tx.',
+        'technique': 'bounded symbolic execution of rustc MIR + z3 obligations; assume-guarantee split between the acceptance '
+                     'kernel and three formula kernels (exact big-integer * and / kept as function symbols)',
+    },
     'C17': {
         'text': 'Symbolic execution of the MIR of seal / apply_proposer_action / move_action_fee_multiplier / tip_condition '
                 'for every u128 multiplier, every i8 delta, every NetID and every height <= 2e6: no reachable overflow or '
